@@ -123,6 +123,10 @@ func (p *Program) VerifyFunc(c *Contract) (res *FuncResult) {
 		vtypes[nm] = prm.Type()
 		res.ParamNames = append(res.ParamNames, nm)
 	}
+	if c.Options["self"] == "recv" && len(args) > 0 {
+		vars["self"] = args[0]
+		vtypes["self"] = fn.Params[0].Type()
+	}
 	for _, g := range c.Ghosts {
 		gt := basicTypeByName(g[1])
 		if gt == nil {
